@@ -609,6 +609,19 @@ class Interp:
             if not broke:
                 self.exec_block(st.orelse, env, module)
             return
+        if isinstance(st, (ast.Import, ast.ImportFrom)):
+            for local, (mod, attr) in self.model.import_target(
+                    module, st).items():
+                r = self.model.resolve_import(mod, attr)
+                if r is None:
+                    raise Unsupported(f"import of {mod}.{attr}", st)
+                k, v = r
+                env[local] = (self.eval(v[1], {}, v[0]) if k == "const"
+                              else Bound(v, None) if k == "func"
+                              else ClassRef(v) if k == "class"
+                              else ModRef(v.name, v) if k == "module"
+                              else ModRef(v, None))
+            return
         if isinstance(st, ast.Continue):
             raise _Continue()
         if isinstance(st, ast.Break):
